@@ -593,6 +593,10 @@ func (e *Exec) applyModifies(env *SpecEnv, fc *FuncContract, st *State) {
 		// element sort of the map
 		inner := strings.TrimSuffix(strings.TrimPrefix(srt, "(Array Int "), ")")
 		n := e.sc.freshConst("mod."+t.heap, inner)
+		if et, ok := e.heapElemType[t.heap]; ok {
+			e.sc.assume(st.reach, e.sc.rangeFact(n, et))
+			e.sc.assume(st.reach, e.allocFact(st, n, et))
+		}
 		if t.lo != "" {
 			// only [lo,hi) of the array changes
 			oldArr := sel(h, t.ref)
